@@ -252,6 +252,8 @@ class CircuitCompositeOperation(ICircuitCompositeOperation):
             graph=self._circuit_graph,
             operation=operation,
         )
+        RelationLink.get_start_time.cache_clear()
+        MultiRelationLink.get_start_time.cache_clear()
         return self
 
     def copy(self, relation_transfer_lookup: Optional[Dict[ICircuitOperation, ICircuitOperation]] = None) -> 'CircuitCompositeOperation':
@@ -321,6 +323,8 @@ class CircuitCompositeOperation(ICircuitCompositeOperation):
                 operation=operation,
             )
         self._circuit_graph = flatten_circuit_graph
+        RelationLink.get_start_time.cache_clear()
+        MultiRelationLink.get_start_time.cache_clear()
         return self
     # endregion
 
